@@ -175,3 +175,30 @@ theorem failed_has_fail_event (p : Plan) (evs : List Ev) (s : St) {e : Nat}
     · have := ih (stepEv p s ev) h hmid; simp [this]
 
 end Sched
+
+namespace Sched
+
+/-- a set `C` of steps each of which waits for a uuid produced by a step of `C` (a wait-for cycle, or a chain into one):
+no step of `C` is ever started -/
+theorem cyclic_never_starts {p : Plan} (hd : DisjointOuts p) (C : Nat → Prop)
+    (hC : ∀ (i : Nat) (st : Step), C i → p[i]? = some st →
+      ∃ u ∈ st.req, ∃ j sj, C j ∧ p[j]? = some sj ∧ u ∈ sj.outs)
+    (evs : List Ev) : ∀ i, C i → i ∉ (run p init evs).started := by
+  suffices ∀ s : St, SInv p s → (∀ i, C i → i ∉ s.started) → ∀ i, C i → i ∉ (run p s evs).started from
+    this init (sinv_init p) (by intro i _; simp [init])
+  induction evs with
+  | nil => intro s _ h; exact h
+  | cons e es ih =>
+    intro s hi hno
+    apply ih (stepEv p s e) (sinv_step hd hi e)
+    intro i hci hmem
+    have hold := hno i hci
+    obtain ⟨_, st, hst, hcan⟩ := started_new hmem hold
+    obtain ⟨u, hu, j, sj, hcj, hsj, huj⟩ := hC i st hci hst
+    have hufin := canRun_req hcan u hu
+    obtain ⟨k, sk, hk1, hk2, hk3⟩ := hi.fin_owner u hufin
+    have : k = j := hd k j sk sj hk2 hsj u hk3 huj
+    subst this
+    exact hno k hcj (hi.begun_sub k (hi.done_sub k (hi.coll_sub k hk1)))
+
+end Sched
